@@ -10,7 +10,7 @@
    * the clause `seq_member` (no token list inside a sequence group): known finding C01-F7. *)
 From Coq Require Import NArith ZArith List Bool.
 From XV Require Import Base.Str Base.Eqb Base.PyInt Spec.XmlNs Model.Bind Model.WriterBridge Spec.Fits Model.RoundtripCorr
-  Model.ConvInt Model.ConvBool Proofs.ConvInt Proofs.ConvBool Proofs.RoundtripWitness.
+  Model.ConvInt Model.ConvBool Proofs.ConvInt Proofs.ConvBool Proofs.RoundtripWitness Proofs.RoundtripBase.
 From XV Require Model.EventGen Model.Parser Model.ParserCorr.
 Import ListNotations.
 Open Scope N_scope.
@@ -23,6 +23,7 @@ Definition conv_c05 : conv :=
        | [TStr] => Some (PStr s)
        | [TInt] => option_map PInt (int_deser s)
        | [TBool] => option_map PBool (bool_deser s)
+       | [TQName] => option_map (fun q => PQName (clark_of q)) (resolve_qname ns s)   (* XML Schema QName resolution *)
        | _ => None
        end)
     (fun fmt p =>
@@ -35,18 +36,20 @@ Definition conv_c05 : conv :=
 
 Definition ok_c05 (p : prim) : bool :=
   match p with
-  | PStr _ | PBool _ => true
+  | PStr _ | PBool _ | PQName _ => true
   | PInt z => match int_ser z with Some _ => true | None => false end
   | _ => false
   end.
 
 Lemma conv_c05_law u : conv_roundtrips conv_c05 u ok_c05.
 Proof.
-  intros fmt ns p s Hok Hs. destruct p; try discriminate Hok; cbn [ptext plain_text] in Hs; inversion Hs; subst; clear Hs.
-  - reflexivity.
-  - cbn [prim_ptype conv_c05 c_deser c_ser]. cbn [ok_c05] in Hok.
-    destruct (int_ser z) as [s|] eqn:E; [|discriminate]. rewrite (int_roundtrip z s E). reflexivity.
-  - cbn [prim_ptype conv_c05 c_deser c_ser]. rewrite bool_roundtrip. reflexivity.
+  split.
+  - intros fmt ns p s Hok Hs. destruct p; try discriminate Hok; cbn [ptext plain_text] in Hs; inversion Hs; subst; clear Hs.
+    + reflexivity.
+    + cbn [prim_ptype conv_c05 c_deser c_ser]. cbn [ok_c05] in Hok.
+      destruct (int_ser z) as [s|] eqn:E; [|discriminate]. rewrite (int_roundtrip z s E). reflexivity.
+    + cbn [prim_ptype conv_c05 c_deser c_ser]. rewrite bool_roundtrip. reflexivity.
+  - intros fmt ns q s _ Hr. cbn [conv_c05 c_deser]. rewrite Hr. cbn [option_map]. rewrite clark_split. reflexivity.
 Qed.
 
 (* ---------------------------------------------------------------- the guards are inhabited *)
@@ -144,4 +147,35 @@ Theorem sequence_tokens_refuted :
   /\ ParserCorr.outcome_eqb composition_seqtok (Parser.Ok o_seqtok []) = false
   /\ ParserCorr.outcome_eqb (Parser.parse cfg_strict conv_c05 u_seqtok (Some root_seqtok) pevs_seqtok) (Parser.Ok o_seqtok []) = false
   /\ ParserCorr.outcome_eqb composition_seqtok (Parser.parse cfg_strict conv_c05 u_seqtok (Some root_seqtok) pevs_seqtok) = true.
+Proof. repeat split; vm_compute; reflexivity. Qed.
+
+(* ---------------------------------------------------------------- QName element values *)
+Example guards_qn :
+  wf_model u_qn root_qn = true
+  /\ fits conv_c05 u_qn ok_c05 py_isspace 1 root_qn o_qn = true
+  /\ noq o_qn = false.
+Proof. repeat split; vm_compute; reflexivity. Qed.
+
+Definition expected_qn : option XmlNs.enode :=
+  expected_of conv_c05 (EventGen.generate false conv_c05 u_qn o_qn).
+
+(* the events the real LxmlEventHandler delivered for the indented output of the real
+   LxmlEventWriter read as the expected tree (every QName through the prefix map of its own start
+   event) and are parsed back *)
+Example real_events_qn :
+  (match expected_qn with Some e => reads_b e pevs_qn | None => false end) = true
+  /\ Parser.parse cfg_strict conv_c05 u_qn (Some root_qn) pevs_qn = Parser.Ok o_qn [].
+Proof. split; vm_compute; reflexivity. Qed.
+
+(* known finding C01-F3: the same instance written with the user prefix map {None: urn:a}: the value
+   QName('local') is written bare, <ns1:v>local</ns1:v> under xmlns="urn:a", and the reader resolves it
+   to {urn:a}local: metadata and instance are inside the guards of the infoset-level theorem, but
+   the events the real handler delivered for the real writer's output do NOT read as the expected
+   tree, and are parsed to a different instance *)
+Theorem qname_default_ns_refuted :
+  wf_model u_qn root_qn = true
+  /\ fits conv_c05 u_qn ok_c05 py_isspace 1 root_qn o_qn = true
+  /\ (match expected_qn with Some e => reads_b e pevs_qn_default | None => true end) = false
+  /\ ParserCorr.outcome_eqb (Parser.parse cfg_strict conv_c05 u_qn (Some root_qn) pevs_qn_default) (Parser.Ok o_qn []) = false
+  /\ has_local_qname o_qn = true.
 Proof. repeat split; vm_compute; reflexivity. Qed.
